@@ -101,8 +101,11 @@ def scalar_mult(x, y, out=None):
     elif out.shape != (2, *torch.broadcast_shapes(real(x).shape, real(y).shape)):
         raise ValueError("out does not have the shape of the result!")
 
-    torch.mul(real(x), real(y), out=real(out)).sub_(torch.mul(imag(x), imag(y)))
-    torch.mul(real(x), imag(y), out=imag(out)).add_(torch.mul(imag(x), real(y)))
+    # compute both parts before writing: `out` may share storage with an operand
+    re = torch.mul(real(x), real(y)).sub_(torch.mul(imag(x), imag(y)))
+    im = torch.mul(real(x), imag(y)).add_(torch.mul(imag(x), real(y)))
+    real(out).copy_(re)
+    imag(out).copy_(im)
 
     return out
 
